@@ -921,6 +921,25 @@ func killAt(sc *ck.Script, scriptPath, root string, win []ck.Event, k int, sizes
 func oracle(root string, sc *ck.Script, before, after *sim) []failure {
 	var fails []failure
 	add := func(sig, f string, a ...any) { fails = append(fails, failure{sig, fmt.Sprintf(f, a...)}) }
+	if sc.Final.Kind == "init" && len(sc.Pre) == 0 {
+		// a crash during the very first oci.New: whatever it left, New must succeed now
+		// and give the empty store (index.json may legitimately not exist yet)
+		st, err := oci.New(root)
+		if err != nil {
+			add("init-reopen-fails", "oci.New after a crash during initialisation: %v", err)
+			return fails
+		}
+		n := 0
+		st.Tags(context.Background(), "", func(tags []string) error { n += len(tags); return nil })
+		idx, status := ck.ReadRawIndex(root)
+		if status != "ok" || len(idx.Manifests) != 0 || n != 0 {
+			add("init-reopen-fails", "after re-initialisation index.json is %s with %d tags", status, n)
+		}
+		if !strings.Contains(ck.ObserveDir(root, sc, nil), "F:L=ok") {
+			add("init-reopen-fails", "after re-initialisation oci-layout is not valid")
+		}
+		return fails
+	}
 	// every file under blobs is complete and matches its name
 	names, bad := ck.BlobFiles(root)
 	for _, b := range bad {
@@ -1115,6 +1134,12 @@ func main() {
 			runGenerated(r, histLen, kind, big, run.Thorough(), crashes)
 		}
 	}
+	// the initialisation itself, killed at every system call
+	func() {
+		p := newPrepared()
+		defer p.close()
+		runMain(&ck.Script{Blobs: universe(r, false), Final: ck.Op{Kind: "init"}}, p, -1, true)
+	}()
 	// Delete with AutoGC (cascades), GC and reopen, on the universe with referrers
 	nGC := run.Scale(3, 40)
 	for h := 0; h < nGC; h++ {
